@@ -160,6 +160,56 @@ def _check_symbolic(n):
     return True, "ok"
 
 
+def _check_wide(n):
+    """the views that need no simulator, on wide registers (directly constructed state vectors): the amplitude at index i (qubit 0 = most significant bit)
+    shows up under the tuple / count string / distribution key / Z-eigenvalues of the bits of i, in both sampling regimes"""
+    import numpy as np
+    from orquestra.quantum.distributions import create_bitstring_distribution_from_probability_distribution
+    from orquestra.quantum.measurements import Measurements
+    from orquestra.quantum.operators import PauliSum, PauliTerm, get_expectation_value
+    from orquestra.quantum.utils import bitstring_to_tuple
+    from orquestra.quantum.wavefunction import Wavefunction, sample_from_wavefunction
+    N = 2 ** n
+    rng = np.random.default_rng(n)
+    bits_of = lambda i: tuple((i >> (n - 1 - q)) & 1 for q in range(n))
+    for i in (0, 1, 2, N // 2, N // 2 + 1, N - 2, N - 1, int(rng.integers(3, N - 3)), int(rng.integers(3, N - 3))):
+        j = (i * 7 + 3) % N if (i * 7 + 3) % N != i else (i + 1) % N
+        for amps in ({i: 1.0}, {i: 0.6, j: 0.8j}):
+            v = np.zeros(N, dtype=complex)
+            for k, a in amps.items():
+                v[k] = a
+            wf = Wavefunction(v)
+            want = {bits_of(k): abs(a) ** 2 for k, a in amps.items()}
+            op = {bitstring_to_tuple(key): p for key, p in wf.get_outcome_probs().items() if p > 1e-14}
+            if len(wf.get_outcome_probs()) != N or set(op) != set(want) or any(abs(op[k] - want[k]) > 1e-12 for k in want):
+                return False, f"n={n}: outcome probabilities of amplitude indices {sorted(amps)} appear under {sorted(op)}, expected {sorted(want)}"
+            dist = create_bitstring_distribution_from_probability_distribution(wf.get_probabilities()).distribution_dict
+            got = {k: p for k, p in dist.items() if p > 1e-14}
+            if set(got) != set(want) or any(abs(got[k] - want[k]) > 1e-12 for k in want) or any(len(k) != n for k in dist):
+                return False, f"n={n}: exact distribution of amplitude indices {sorted(amps)} has support {sorted(got)}, expected {sorted(want)}"
+            for q in (0, 1, n // 2, n - 1):
+                for S in ((q,), (0, q) if q else (0, n - 1)):
+                    S = tuple(sorted(set(S)))
+                    ez = get_expectation_value(PauliSum([PauliTerm({s_: "Z" for s_ in S}, 1.0)]), wf)
+                    wz = sum(p * (-1) ** sum(k[s_] for s_ in S) for k, p in want.items())
+                    if abs(ez - wz) > 1e-10:
+                        return False, f"n={n}: <Z_{S}> of amplitude indices {sorted(amps)} is {ez}, the bits of the indices give {wz}"
+            for n_samples in (3, N + 5):
+                samples = sample_from_wavefunction(wf, n_samples, 11)
+                if len(samples) != n_samples or any((not isinstance(s_, tuple)) or len(s_) != n or s_ not in want for s_ in samples):
+                    bad = [s_ for s_ in samples if not isinstance(s_, tuple) or s_ not in want][:1]
+                    return False, f"n={n}: {n_samples} samples of amplitude indices {sorted(amps)}: outcome {bad} has zero exact probability / wrong length"
+                m = Measurements(samples)
+                if not set(m.get_counts()) <= {"".join(map(str, k)) for k in want} or sum(m.get_counts().values()) != n_samples:
+                    return False, f"n={n}: count strings {set(m.get_counts())} are not the bit strings of the amplitude indices"
+                if len(amps) == 1:
+                    k = bits_of(i)
+                    ev = m.get_expectation_values(PauliSum([PauliTerm({0: "Z"}, 1.0), PauliTerm({n - 1: "Z"}, 1.0), PauliTerm({0: "Z", n // 2: "Z"}, 1.0)])).values
+                    if [round(float(x)) for x in ev] != [(-1) ** k[0], (-1) ** k[n - 1], (-1) ** (k[0] + k[n // 2])]:
+                        return False, f"n={n}: measured <Z_0>, <Z_{n-1}>, <Z_0 Z_{n//2}> of basis state {k} are {list(ev)}"
+    return True, "ok"
+
+
 def build(tier, seed):
     obs = []
     fb = vprop.enum_ob("x", [], lambda: range(1, 4), _check_width, "").run
@@ -180,6 +230,10 @@ def build(tier, seed):
     obs.append(vprop.enum_ob("C04.views.enum", F_OPS, lambda: range(1, 5 if tier == "quick" else 6), _check_width,
                              "bounded-exhaustive per width: amplitudes, outcome-prob keys, exact distribution, exact <Z_S> for every subset S, sampled tuples (both sampling regimes, "
                              "function and runner), count strings and measured <Z_S> all use 'position q = qubit q' on basis states and on a separable state with distinct marginals", timeout=1500))
+    obs.append(vprop.enum_ob("C04.wide_views.enum", F_OPS[:3] + F_OPS[5:], lambda: ([6, 9] if tier == "quick" else [6, 9, 12]), _check_wide,
+                             "bounded: registers of 6 / 9 (12) qubits, directly constructed basis states and two-component superpositions at the first, last, middle and random indices: outcome "
+                             "probabilities, exact distribution, exact <Z_S>, sampled tuples in both regimes, count strings and measured <Z_S> all read bit q of the amplitude index "
+                             "(most significant first) as qubit q", exhaustive=False, timeout=900))
     obs.append(vprop.enum_ob("C04.symbolic_views.enum", F_OPS[:3] + ["orquestra.quantum.circuits._unitary_tools:_lift_matrix_sympy", "orquestra.quantum.circuits._unitary_tools:_lift_matrix_numpy"],
                              lambda: range(2, 4 if tier == "quick" else 5), _check_symbolic,
                              "bounded-exhaustive per width: controlled rotations, two-qubit rotations and a doubly-controlled rotation with a FREE parameter on EVERY ordered qubit tuple: "
